@@ -6,9 +6,11 @@ truncation, model of the mmcif adapter / container / DataCategory, argparse mode
 one representative per class of the input partition, with a coverage obligation (every statement reached).  The facts:
 missing data / category / source item -> the input text itself; every row's target := its source ('.' and '?'
 included), new item appended, nothing else changes, the *written* document contains the edit; first-seen mapping that
-is returned; an alphabet shorter than the distinct values fails or stays total and injective; no state survives a
-call; the tool writes exactly the text component of the library result for the content of the input file, also with
-output path == input path, and touches nothing when no action is requested.
+is returned; an alphabet shorter than the distinct values fails (a normal return cannot be the image of an injective mapping into
+the alphabet); no state survives a call and a result belongs to its caller (call sequences in one process against fresh
+processes); the tool writes exactly the text component of the library result for the content of the input file and the option
+values as they were given (representatives on which reordering, de-duplication, case folding, stripping are visible),
+also with output path == input path, and touches nothing when no action is requested.
 
 The pinned-form rules below (statement shapes at the pinned commit) are only the fallback when a function cannot be
 evaluated (a construct outside the supported fragment).
@@ -68,6 +70,12 @@ def check_cli(chk) -> None:
             lib[name] = c
             first = norm(c.args[0]) if c.args else next((norm(k.value) for k in c.keywords if k.arg == "file_content"), None)
             chk.expect(content_var is not None and first == content_var, "cli-content", fi.site(c), f"{name} receives the document text", f"{name} receives `{first}` as file_content, which is not the text read from args.input", K(fi, f"content:{name}"), found=first)
+    # the parser hands an option over as the text that was given: a declaration that can change it (type=, nargs=, action=, const=, choices=, dest=)
+    # is not decided by the forms below
+    for a in astq.calls(fi.node, "add_argument"):
+        odd = [k.arg for k in a.keywords if k.arg not in ("help", "metavar", "required", "default") and not (k.arg == "type" and norm(k.value) == "str")]
+        if odd and a.args and isinstance(a.args[0], ast.Constant) and a.args[0].value not in ("input", "output"):
+            chk.error("cli-wiring", fi.site(a), f"option `{a.args[0].value}` is declared with {', '.join(str(x) + '=' for x in odd)}: what reaches the library for a given text is not decided by the pinned forms (and main could not be evaluated)")
     chk.expect(set(lib) == {"copy_from_to", "replace_value"}, "cli-dispatch", fi.where, "both library functions are reachable from the CLI", "a library function is no longer called by the CLI", K(fi, "dispatch"))
     # option -> parameter wiring
     if "copy_from_to" in lib:
@@ -266,7 +274,8 @@ def check_library_eval(chk, only=None) -> None:
 
 
 def check_memo(chk) -> None:
-    # ---- no memoisation of parsed (mutable) documents -------------------------------------------------------------
+    """Pinned-form fallback (used only when the library functions cannot be evaluated; otherwise checks/c20e.py:_repeat_calls
+    decides on the code whether a memo leaks an edited object): no memoisation of parsed (mutable) documents."""
     repo = chk.repo
     n = 0
     for q, g in sorted(repo.modules[M].funcs.items()):
@@ -293,14 +302,15 @@ def run(chk) -> None:
     chk.explanation = (
         "transformer.py decided by evaluating copy_from_to, replace_value and main as whole functions (ast interpreted by sa/blockeval.py + checks/c20e.py; nothing of rnapolis is imported or run) on one "
         "representative per class of their input partition in a closed stub world: documents with no block / without the category / without the source item / with '.', '?', quoted and repeated values / a new "
-        "target item / a category without rows / a second untouched block; alphabets longer than, exactly as long as and shorter than the number of distinct values; command lines with each option group "
-        "complete, partial, absent, both, each with distinct paths and with output path == input path. Stubs: dict file system (buffered writes, truncation at open-for-write, temporary files deleted on close), "
+        "target item / a category without rows / a second untouched block; alphabets longer than, exactly as long as and shorter than the number of distinct values; sequences of calls on one text in one process (other source / same source, "
+        "other target / identical call, results emptied by the caller) against the same calls in fresh processes; command lines with each option group complete, partial, absent, both, option values not in code-point "
+        "order / with a repeated symbol / with capitals, blanks and punctuation, each with distinct paths and with output path == input path. Stubs: dict file system (buffered writes, truncation at open-for-write, temporary files deleted on close), "
         "IoAdapterPy.readFile/writeFile, data container (replace installs only under an existing name), DataCategory (deep-copying constructor, getValueOrDefault returning the default for '.', '?', None), argparse "
         "(FileType opens while parsing), and for the CLI the library functions as stubs returning a text that names the arguments they received. Every statement of the evaluated functions must be reached by a "
         "representative. The pinned-form rules are only a fallback for a function that cannot be evaluated."
     )
     chk.trusted = ["CPython ast", "mmcif IoAdapterPy re-serialises untouched categories faithfully", "the stub model of mmcif DataCategory / DataContainer / IoAdapterPy in checks/c20e.py follows the library's documented behaviour"]
-    chk.assumptions = ["values has enough symbols for the distinct values (an exception otherwise is the caller's contract; a normal return must still be a total injective substitution)", "only the first data block is edited (the rules use no document where the category also occurs in a later block)"]
+    chk.assumptions = ["values has enough symbols for the distinct values (an exception otherwise is the caller's contract; a normal return is a violation: no injective mapping into an alphabet with fewer symbols exists)", "only the first data block is edited (the rules use no document where the category also occurs in a later block)"]
     chk.robust |= {"cli-path-args", "cli-content", "cli-writes-str", "cli-wiring", "edit-eval", "memo-mutable", "cli-open-order-evidence", "edit-reaches-output", "early-exit-eval", "mapping-total", "repeat-eval", "default-alphabet", "cli-eval", "cli-inplace-eval"}
     chk.superseded.update({"row-stores": "edit-eval", "new-item": "edit-eval"})
     repo = chk.repo
@@ -309,7 +319,7 @@ def run(chk) -> None:
     chk.note_function(fi)
     why = cli_why = _fact_level(chk, c20e.check_cli, fi)
     if why is None:
-        for rule, n in (("cli-eval", 10), ("cli-inplace-eval", 10)):
+        for rule, n in (("cli-eval", 15), ("cli-inplace-eval", 15)):
             chk.floor(rule, n)
     else:
         chk.ok("cli-facts", fi.where, f"fact-level reading of main not possible ({why[:160]}); falling back to the pinned forms")
@@ -328,16 +338,20 @@ def run(chk) -> None:
         check_library(chk, fallback)
         check_library_eval(chk, fallback)
     else:
-        for rule, n in (("early-exit-eval", 8), ("edit-eval", 12), ("mapping-total", 3), ("repeat-eval", 2), ("eval-coverage", 3 if cli_why is None else 2)):
+        for rule, n in (("early-exit-eval", 12), ("edit-eval", 17), ("mapping-total", 3), ("repeat-eval", 6), ("eval-coverage", 3 if cli_why is None else 2)):
             chk.floor(rule, n)
-    check_memo(chk)
+    if fallback:
+        check_memo(chk)  # pinned form (any memoising decorator) only when the calls cannot be evaluated
+    else:
+        memo = sorted(q for q, g in repo.modules[M].funcs.items() if any(d.split("(")[0].split(".")[-1] in ("cache", "lru_cache") for d in g.decorators))
+        chk.ok("memo-mutable", f"src/rnapolis/{M}.py", ("memoised: " + ", ".join(memo) if memo else "no function of the module is memoised") + " - whether a memo hands an edited object to a later call is decided by repeat-eval (call sequences in one process against fresh processes, results owned by the caller)")
 
 
 MANIFEST_ENTRY = {
     "text": "Static decision on the current source of transformer.py: copy_from_to, replace_value and main are evaluated from their ast (nothing is imported or run) on one representative per class of their inputs in a stub world "
     "(dict file system, model of the mmcif adapter / container / DataCategory, argparse model). Facts decided: a missing block / category / source item returns the input text itself; every row's target becomes its source "
-    "('.' and '?' included), a new item is appended, nothing else changes and the written document contains the edit; the first-seen mapping is applied and returned, and an alphabet with too few symbols fails or stays total "
-    "and injective; no state survives a call; the CLI writes exactly the text component of the library result for the content of the input file, also when output and input are the same path, and touches nothing without an action. "
+    "('.' and '?' included), a new item is appended, nothing else changes and the written document contains the edit; the first-seen mapping is applied and returned, and a call with an alphabet of too few symbols fails (a normal return "
+    "cannot be an injective mapping into the alphabet); no state survives a call and a result belongs to its caller; the CLI writes exactly the text component of the library result for the content of the input file and the option values as given, also when output and input are the same path, and touches nothing without an action. "
     "The frame condition and the CLI path are never executed by the suite; here they are facts about every statement of the code (coverage obligation).",
     "note": "Trusted: mmcif library re-serialisation of untouched categories and its list-returning accessors.",
     "technique": "static analysis: whole-function evaluation of the ast on input-class representatives in a stub world (files, mmcif objects, argparse), coverage obligation; pinned-form rules as fallback",
